@@ -96,5 +96,13 @@ def run(ctx):
                         gen_args=['-seed', str(ctx.seed), '-n', str({'quick': 2500, 'thorough': 40000}[ctx.tier]), '-tier', 'quick'],
                         compare_keys=['err', 'nv', 'walk', 'look'], nontrivial=layer_nontrivial, oracle=layer_oracle,
                         classify=lambda case, fi, fm: 'image limit=%s err=%s' % (case.split(' ')[1], fi.get('err')))
+    # ---- the clause "once its context is cancelled ... runs no further plugin, reporting failure whenever work remained" for
+    # the plugin loops of Scan (filesystem.Run -> standalone.Run -> detector.Run): theorems in Properties/C10Plugins.lean, tied
+    # to the real scalibr.Scan through the scan harness of C20 (started-plugin log, cancellation inside every position)
+    from . import c20
+    ok = ctx.audit(['Scalibr.Properties.C10', 'Scalibr.Properties.C10Layer', c20.PHASES_MODULE], THEOREMS + LAYER_THEOREMS + c20.PHASES_THEOREMS) and ok
+    if ctx.tier == 'thorough':
+        ok = ctx.leanchecker(c20.PHASES_MODULE) and ok
+    c20.run_plugin_phases(ctx)
     if not ok:
-        lib.proof_failed(ctx, 'Scalibr.Properties.C10 / Scalibr.Properties.C10Layer')
+        lib.proof_failed(ctx, 'Scalibr.Properties.C10 / Scalibr.Properties.C10Layer / Scalibr.Properties.C10Plugins')
